@@ -112,6 +112,34 @@ def stride_pattern_io(repo: Repo, chk: Check) -> None:
                 if isinstance(a, ast.Attribute) and kw:
                     printed.append((kw, a.attr))
                     kw = None
+    if not printed:
+        # the same printed from a table: for [i,] (keyword, array) in [enumerate]((("ub", self.upper_bounds), ...)): print_string(f"..{keyword} = ["); print_list(array, ..)
+        tables = {}
+        for st in ast.walk(pr.node):
+            if isinstance(st, ast.Assign) and len(st.targets) == 1 and isinstance(st.targets[0], ast.Name) and isinstance(st.value, (ast.Tuple, ast.List)):
+                tables[st.targets[0].id] = st.value
+        for lp in [x for x in ast.walk(pr.node) if isinstance(x, ast.For)]:
+            it, tg = lp.iter, lp.target
+            if isinstance(it, ast.Call) and callee_name(it) == "enumerate" and it.args and isinstance(tg, ast.Tuple) and len(tg.elts) == 2:
+                it, tg = it.args[0], tg.elts[1]
+            if isinstance(it, ast.Name) and it.id in tables:
+                it = tables[it.id]
+            if not (isinstance(it, (ast.Tuple, ast.List)) and isinstance(tg, ast.Tuple) and len(tg.elts) == 2 and all(isinstance(e, ast.Name) for e in tg.elts)):
+                continue
+            kv, av = tg.elts[0].id, tg.elts[1].id  # type: ignore[attr-defined]
+            rows = [(e.elts[0].value, e.elts[1].attr) for e in it.elts if isinstance(e, (ast.Tuple, ast.List)) and len(e.elts) == 2 and isinstance(e.elts[0], ast.Constant)
+                    and isinstance(e.elts[0].value, str) and isinstance(e.elts[1], ast.Attribute) and isinstance(e.elts[1].value, ast.Name) and e.elts[1].value.id == "self"]
+            if len(rows) != len(it.elts):
+                continue
+            prints_kw = any(isinstance(c_, ast.Call) and callee_name(c_) == "print_string" and any(isinstance(j, ast.JoinedStr) and any(
+                isinstance(v, ast.FormattedValue) and isinstance(v.value, ast.Name) and v.value.id == kv for v in j.values) and any(
+                isinstance(v, ast.Constant) and re.search(r"=\s*\[$", str(v.value)) for v in j.values) for j in ast.walk(c_)) for x in lp.body for c_ in ast.walk(x))
+            prints_list = any(isinstance(c_, ast.Call) and callee_name(c_) == "print_list" and c_.args and isinstance(c_.args[0], ast.Name) and c_.args[0].id == av
+                              for x in lp.body for c_ in ast.walk(x))
+            if prints_kw and prints_list:
+                printed = rows
+        if not printed:
+            raise AnalysisError(f"{pr.where}: how the printer pairs keywords with fields is not recognised")
     want = list(zip(("ub", "ts", "ss"), fields))
     chk.result(printed == want and fields == ["upper_bounds", "temporal_strides", "spatial_strides"], "C19.stride-pattern-io", f"{pr.key}:keywords", pr.where,
                f"printer emits {printed}", f"printer emits {printed}; expected {want} (keyword order / field pairing)")
